@@ -10,6 +10,8 @@ from .. import reftok
 
 ID = 'C19'
 SYMS = ['\x1b', '[', '1', ';', '?', 'm', 'A', ' ', '\xe9']
+# boundary symbols of the final-byte range 0x40-0x7E and the byte just above it
+EXTRA = ['@', '~', '\x7f']
 FLAGS = [(ae, acc) for ae in (True, False) for acc in (None, 'm', 'mA')]
 HELPERS = {
     'cursor_up_str': 'A', 'cursor_down_str': 'B', 'cursor_forward_str': 'C', 'cursor_backward_str': 'D',
@@ -34,6 +36,11 @@ def tasks(tier, seed):
     for a in range(len(SYMS)):
         for b in range(len(SYMS)):
             out.append({'kind': 'tree', 'prefix': [a, b], 'n': n})
+    # the wider alphabet (with @, ~, DEL) one symbol shorter; only strings that use one of the extra symbols
+    m = len(SYMS) + len(EXTRA)
+    for a in range(m):
+        for b in range(m):
+            out.append({'kind': 'tree', 'prefix': [a, b], 'n': n - 1, 'wide': True})
     return out
 
 
@@ -134,6 +141,11 @@ def run_task(task, acc):
         strings = ['']
         for k in (1,):
             strings += [''.join(t) for t in itertools.product(S, repeat=k)]
+    elif task.get('wide'):
+        W = S + EXTRA
+        pre = ''.join(W[i] for i in task['prefix'])
+        strings = (x for x in (pre + ''.join(t) for k in range(0, task['n'] - 1) for t in itertools.product(W, repeat=k))
+                   if any(e in x for e in EXTRA))
     else:
         pre = ''.join(S[i] for i in task['prefix'])
         strings = (pre + ''.join(t) for k in range(0, task['n'] - 1) for t in itertools.product(S, repeat=k))
@@ -166,7 +178,7 @@ def replay(case):
 
 def describe(tier, seed):
     return {
-        'rule': 'every string of length 0..%d over %r x 6 flag combinations; a node is non-trivial when it contains '
+        'rule': 'every string of length 0..%d over %r (and, one symbol shorter, over that alphabet plus @ ~ DEL) x 6 flag combinations; a node is non-trivial when it contains '
                 'ESC [ ; helpers: every function x n in %r. states = prefix-tree nodes (+ helper calls), '
                 'transitions = tree edges.' % (maxlen(tier), syms(seed), NS),
         'bounds': {'max_len': maxlen(tier), 'alphabet': syms(seed), 'flags': [list(map(repr, f)) for f in FLAGS]},
